@@ -882,7 +882,20 @@ func runErrflow(c *Ctx, eff *Effects, r *Report, scope map[*ssa.Function]bool, r
 	ef := &errflow{c: c, eff: eff, sync: c.Sync}
 	var sites []*ErrSite
 	total, pure := 0, 0
-	wrongSeen := map[string]bool{}
+	type wrongGroup struct {
+		fn      *ssa.Function
+		at      ssa.CallInstruction
+		callees []string
+	}
+	wrongGroups := map[string]*wrongGroup{}
+	var wrongOrder []string
+	defer func() {
+		for _, w := range wrongOrder {
+			g := wrongGroups[w]
+			sort.Strings(g.callees)
+			r.viol(rule+"/wrong-variable", fmt.Sprintf("%s error branch of %s", strings.Join(c.ownerNames(g.fn), "/"), strings.Join(dedupStrings(g.callees), "|")), c.ipos(g.at), w)
+		}
+	}()
 	for _, f := range sortedFuncs(scope) {
 		ordn := newOrdinals()
 		for _, ci := range callsOf(f) {
@@ -899,9 +912,16 @@ func runErrflow(c *Ctx, eff *Effects, r *Report, scope map[*ssa.Function]bool, r
 			if !effectful {
 				pure++
 				// companion lint only
-				if lintAll && site.Wrong != "" && !wrongSeen[site.Wrong] {
-					wrongSeen[site.Wrong] = true
-					r.viol(rule+"/wrong-variable", fmt.Sprintf("%s error branch of %s", fname(f), name), c.ipos(ci), site.Wrong)
+				if lintAll && site.Wrong != "" {
+					// one finding per branch, named after every call whose error arrives there (whichever the source puts
+					// first), helpers split off from the reference code named by the calls they forward
+					g := wrongGroups[site.Wrong]
+					if g == nil {
+						g = &wrongGroup{fn: f, at: ci}
+						wrongGroups[site.Wrong] = g
+						wrongOrder = append(wrongOrder, site.Wrong)
+					}
+					g.callees = append(g.callees, forwardedCallees(ci)...)
 				}
 				continue
 			}
@@ -922,4 +942,35 @@ func runErrflow(c *Ctx, eff *Effects, r *Report, scope map[*ssa.Function]bool, r
 	r.Extra["pure_callee_sites_excluded"] = pure
 	r.Extra["effectful_sites"] = len(sites)
 	return sites
+}
+
+// forwardedCallees: the name of the called function, or - for a helper the reference tree does not have - the names of
+// the calls whose error it hands back.
+func forwardedCallees(ci ssa.CallInstruction) []string {
+	sc := ci.Common().StaticCallee()
+	if sc == nil || !isNewHelper(sc) || sc.Blocks == nil {
+		return []string{calleeName(ci.Common())}
+	}
+	var out []string
+	ef := &errflow{}
+	for _, cj := range callsOf(sc) {
+		ev, _ := errValueOf(cj)
+		if ev == nil {
+			continue
+		}
+		for v := range ef.carriers(ev) {
+			if v.Referrers() == nil {
+				continue
+			}
+			for _, rf := range *v.Referrers() {
+				if _, ok := rf.(*ssa.Return); ok {
+					out = append(out, forwardedCallees(cj)...)
+				}
+			}
+		}
+	}
+	if len(out) == 0 {
+		return []string{calleeName(ci.Common())}
+	}
+	return out
 }
